@@ -18,6 +18,7 @@
 package ucfg
 
 import (
+	"math"
 	"reflect"
 	"regexp"
 	"time"
@@ -811,13 +812,31 @@ func reifyDuration(
 	var d time.Duration
 	var err error
 
+	// numbers are seconds; a value that does not fit into a Duration is an
+	// error, it must not wrap around
+	const maxSeconds = int64(math.MaxInt64 / time.Second)
+
 	switch v := val.(type) {
 	case *cfgInt:
-		d = time.Duration(v.i) * time.Second
+		if v.i < -maxSeconds || maxSeconds < v.i {
+			err = ErrOverflow
+		} else {
+			d = time.Duration(v.i) * time.Second
+		}
 	case *cfgUint:
-		d = time.Duration(v.u) * time.Second
+		if uint64(maxSeconds) < v.u {
+			err = ErrOverflow
+		} else {
+			d = time.Duration(v.u) * time.Second
+		}
 	case *cfgFloat:
-		d = time.Duration(v.f * float64(time.Second))
+		// strict upper bound (MaxInt64 is 2^63 as a float64); the negated
+		// range test also rejects NaN
+		if ns := v.f * float64(time.Second); !(math.MinInt64 <= ns && ns < math.MaxInt64) {
+			err = ErrOverflow
+		} else {
+			d = time.Duration(ns)
+		}
 	case *cfgString:
 		d, err = time.ParseDuration(v.s)
 	default:
